@@ -38,7 +38,7 @@ GATES = {
     "idempotence_checked": 50,
     "disk_entry_point": 10,
     "nan_string_converted": 1,
-    "band_absent_rejected": 1,
+    "band_absent_rejected": 1, "band_absent_from_one_image_only": 4,
 }
 
 NAN = float("nan")
@@ -195,6 +195,17 @@ def cases(spec, ctx):
             {"work": "band", "band": None, "expect": "reject"},
             {"work": "band-mono", "band": "r", "expect": "reject"},
         ]
+        # left and right images with different band lists: the band must exist in BOTH images
+        for val in (False, True):
+            cs += [
+                {"work": "band-asym", "band": "r", "left": ["r", "g", "b"], "right": ["g", "b", "nir"], "validation": val, "expect": "reject"},
+                {"work": "band-asym", "band": "nir", "left": ["r", "g", "b"], "right": ["g", "b", "nir"], "validation": val, "expect": "reject"},
+                {"work": "band-asym", "band": "g", "left": ["r", "g", "b"], "right": ["g", "b", "nir"], "validation": val, "expect": "accept"},
+                {"work": "band-asym", "band": "r", "left": ["r", "g"], "right": None, "validation": val, "expect": "reject"},
+                {"work": "band-asym", "band": "r", "left": None, "right": ["r", "g"], "validation": val, "expect": "reject"},
+                {"work": "band-asym", "band": None, "left": None, "right": ["r", "g"], "validation": val, "expect": "reject"},
+                {"work": "band-asym", "band": None, "left": ["r", "g"], "right": None, "validation": val, "expect": "reject"},
+            ]
         yield from cs
     elif work == "pairs":
         for i in range(spec["n"]):
@@ -295,7 +306,7 @@ def defaults_for(pipe):
 def check_machine(ctx, case, pipe, expect, mb=False):
     """One check through PandoraMachine.check_conf; judges acceptance, preservation, defaults, no mutation,
     idempotence."""
-    ml, mr = _state["mb" if mb else "mono"]
+    ml, mr = _state["asym"] if mb == "asym" else _state["mb" if mb else "mono"]
     user = {"pipeline": copy.deepcopy(pipe)}
     snapshot = copy.deepcopy(user)
     m = pipes.new_machine()
@@ -396,6 +407,21 @@ def run_case(case, ctx):
         check_machine(ctx, case, pipe, case["expect"], mb=(work == "band"))
         if case["expect"] == "reject":
             ctx.gate("band_absent_rejected")
+        return
+    if work == "band-asym":
+        def meta(bands):
+            im = np.zeros(((len(bands),) if bands else ()) + (30, 40), np.float32)
+            return gen.metadata_dataset(gen.make_dataset(im, (-2, 2), bands=bands))
+        keys = ["matching_cost", "disparity"] + (["validation"] if case["validation"] else [])
+        pipe = pipes.instantiate(keys)
+        if case["band"] is not None:
+            pipe["matching_cost"]["band"] = case["band"]
+        ctx.case([work, case["band"], case["left"], case["right"], case["validation"]])
+        _state["asym"] = (meta(case["left"]), meta(case["right"]))
+        check_machine(ctx, dict(case, param="band"), pipe, case["expect"], mb="asym")
+        if case["expect"] == "reject":
+            ctx.gate("band_absent_rejected")
+            ctx.gate("band_absent_from_one_image_only")
         return
     if work == "pairs":
         rng = ctx.rng("pairs", case["sub"], case["i"])
